@@ -13,6 +13,12 @@ CHECKS = {
             'Trusts the 90-line clock model and the VLoop observer; values outside {-1,0,1,2,inf} and more than 3 activities are not explored.',
             'DESIGN.md section 3 C01'),
 }
+CHECKS['C09'] = ('fault_enumeration', 'exhaustive fault injection (cancel at every activation boundary, swept until-interrupt/close) into enumerated lock programs on the real kernel vs. a FIFO lock model',
+    'All programs of 2-3 contenders on one Lock (same-turn arrivals, re-requests, nesting) are executed fault-free and with a cancel injected at every activation '
+    'boundary of every contender, plus until-interrupts and forceful closes swept over every queue position; a 40-line FIFO lock model driven by the '
+    'request/enter/leave records must agree on every entry, every `available` probe and on the lock being free at the end.',
+    'Trusts the lock model and the log bracketing of the DSL interpreter; one lock, <= 3 contenders, <= 2 injected faults.',
+    'DESIGN.md section 3 C09')
 PENDING = {}
 
 def main():
